@@ -206,10 +206,10 @@ def check(run):
     r = gen.rng_for(run.seed, "c09")
     specs = []
     k = 0
-    want = 1500 if thorough else 260
+    want = 5000 if thorough else 900
     while len(specs) < want:
         k += 1
-        g = r.choice([None, None, "T", "a", "aT", "aTw", "I", "aI", "N", "TU"])
+        g = r.choice([None, None, "T", "a", "aT", "aTw", "I", "aI", "N", "TU", "Tdef", "TNdef"])
         s = build(r, "E%d" % k, generics=g)
         if s is not None:
             specs.append(s)
